@@ -9,7 +9,7 @@ MAXLEN = {"quick": 5, "thorough": 6}
 def mc_cfg(run, maxlen):
     cfg = run.path("MC_C16.cfg")
     open(cfg, "w").write(f"SPECIFICATION Spec\nCONSTANTS\n  MaxLen = {maxlen}\n  Alphabet <- MCAlphabet\n  KeywordSample <- AllKeywords\n"
-                         "INVARIANTS RefSatisfiable NameWF Emit\nCHECK_DEADLOCK FALSE\n")
+                         "INVARIANTS RefSatisfiable NameWF SitesAgreeCode Emit\nCHECK_DEADLOCK FALSE\n")
     return cfg
 
 
@@ -52,6 +52,9 @@ def check(tier):
     run = Run("C16", tier)
     run.skip_key = ['name', 'kw', 'spell', 'role', 'variant']
     res = core.tlc("mc/MC_C16.tla", mc_cfg(run, MAXLEN[tier]), workers=8, coverage=True, timeout=3000, xmx="12g")
+    # derived identifiers: definition and uses of a component's default function agree iff they start from the same name of the parent
+    negd = core.tlc("mc/MC_C16.tla", "mc/MC_C16_defaultfn.cfg", workers=4, timeout=600, expect_violation=True)
+    run.cov.setdefault("negative_models_refuted", {})["default_fn_named_from_two_spellings"] = negd.violated
     core.check_coverage(res)
     run.add_tlc(res, f"Idents: all names up to {MAXLEN[tier]} characters over {{a,b,A,B,1,-}} x roles, every keyword x spelling x role")
     cases = res.printed("CASE")
